@@ -136,6 +136,21 @@ def last_seg(path):
     return segs[-1] if segs else path
 
 # ----------------------------------------------------------------------------
+class State:
+    """Everything that changes during execution and must be snapshotted between scheduler steps."""
+    def __init__(self):
+        self.pc = []                 # path condition: list of bool terms
+        self.events = []             # harness-visible event log
+        self.env = None              # environment model (harness specific)
+        self.sched = None
+        self.mutexes = []
+        self.channels = []
+        self.oneshots = []
+        self.timers = []
+        self.spurious_done = set()
+        self.roots = {}              # harness-owned objects (manager, params, ...)
+        self.counters = {}
+
 class Machine:
     """One path of symbolic execution."""
     def __init__(self, prog, solver, chooser=None, registry=None, intrinsics=None, resolver=None):
@@ -144,18 +159,29 @@ class Machine:
         self.ch = chooser or Chooser()
         self.reg = registry              # type registry (enums, structs)
         self.intr = intrinsics           # IntrinsicTable
-        self.pc = []                     # path condition: list of bool terms
+        self.st = State()
         self.steps = 0
         self.max_steps = 2000000
         self.loop_bound = 64
-        self.events = []                 # harness-visible event log
         self.cur = []                    # stack of body names (for messages)
         self.bodies_run = set()
         self.intrinsics_hit = set()
-        self.env = None                  # environment model (harness specific)
         self.generic_bindings = {}       # 'S' -> 'ClnDatastore' etc
         self.trace_calls = False
         self.depth = 0
+
+    @property
+    def pc(self):
+        return self.st.pc
+    @property
+    def events(self):
+        return self.st.events
+    @property
+    def env(self):
+        return self.st.env
+    @env.setter
+    def env(self, v):
+        self.st.env = v
 
     # ---- path condition / branching -----------------------------------------
     def assume(self, cond):
@@ -347,6 +373,9 @@ class Machine:
 
     def named_const(self, txt, body):
         name = norm_callee(txt)
+        sc = self.prog.simple_const(txt, name)
+        if sc is not None:
+            return self.const(sc, body)
         b = self.prog.const_body(txt, name, body)
         if b is not None:
             key = ('const', b.name)
